@@ -66,10 +66,12 @@ impl BitField {
     /// BitField::try_from_bits(iter): the set of the given bits (Err only when a bit is u64::MAX, which a bitfield cannot hold)
     #[verifier::external_body]
     pub fn try_from_bits(bits: Vec<u64>) -> (r: Result<BitField, AnyhowError>) ensures r.is_ok() ==> r->Ok_0@ == bits@.to_set() { unimplemented!() }
-    /// `bf.iter()` visits every set bit exactly once, in increasing order; modelled as the Vec of the bits
+    /// `bf.iter()` visits every set bit exactly once, in increasing order; modelled as the Vec of the bits (`iter_spec`: that list)
+    pub uninterp spec fn iter_spec(&self) -> Seq<u64>;
     #[verifier::external_body]
     pub fn iter(&self) -> (r: Vec<u64>)
         ensures
+            r@ == self.iter_spec(),
             r@.to_set() == self@, r@.len() == self@.len(), r@.no_duplicates(),
             forall|i: int, j: int| 0 <= i < j < r@.len() ==> r@[i] < r@[j],
     { unimplemented!() }
